@@ -77,7 +77,7 @@ def run_job(cpath, job, outdir, tier='quick'):
     entry = job['entry']
     defs = ['-D' + d for d in job.get('defs', '').split(',') if d]
     gb1 = os.path.join(outdir, name + '.1.gb'); gb2 = os.path.join(outdir, name + '.2.gb')
-    timeout = int(job.get('timeout', '900'))
+    timeout = int(os.environ.get('Y_TIMEOUT') or job.get('timeout', '900'))
     res = {'job': name, 'unit': os.path.basename(cpath), 'entry': entry, 'cmds': [], 'obligations': [], 'seconds': 0.0,
            'backend': job.get('backend', ''), 'props': job.get('props', '').split(',')}
     cmd = ['goto-cc', '-I', TOOLS, '--function', entry] + defs + [cpath, '-o', gb1]
